@@ -504,11 +504,53 @@ def c08(ctx):
     )
 
 
-PROPS = {"C01": c01, "C08": c08, "C06": c06, "C15": c15, "C18": c18, "C12": c12, "C07": c07, "C09": c09, "C09": c09, "C10": c10, "C11": c11, "C13": c13, "C14": c14, "C05": c05, "C20": c20, "C16": c16, "C17": c17, "C04": c04, "C03": c03}
+def c02(ctx):
+    prog = ctx.prog("dev")
+    RSG.rule_r24_selection(ctx, prog)
+    RSG.rule_r22_partition(ctx, prog)
+    RZ.rule_r18_partition(ctx, prog)
+    # permutation: only swaps move data in the selection family
+    eff = RE.Effect(ctx, prog, "R4")
+    for n in ("partition_mut", "get_from_sorted_mut", "get_many_from_sorted_mut"):
+        eff.add_entry(prog.method("Sort1dExt", n), [1])
+    eff.run()
+    ctx.floor("R4", eff.n_swaps, 3, "swap sites")
+    RU.rule_r14(ctx, prog)
+    # bulk form: one entry per distinct index in increasing index order (structural clause)
+    RS.rule_r12_callsites(ctx, prog)
+    bulk = prog.find("sort::get_many_from_sorted_mut_unchecked")
+    r = RT.ds(bulk.return_expr()) if hasattr(RT, "ds") else None
+    finals = [RT.ds(bulk.def_expr(0, d)) for d in bulk.reaching_defs(0, bulk.exits()[0], "term")]
+    okz = False
+    for f in finals:
+        if isinstance(f, tuple) and f[0] == "call" and f[1] == "collect":
+            z = RT.ds(f[3][0])
+            if z[0] == "call" and z[1] == "zip":
+                l0 = RL.producer_chain(prog, bulk, z[3][0])
+                okz = l0[3] is None and RT.ds(l0[1])[:2] == ("param", 2)
+    ctx.ob("R9", "get_many_from_sorted_mut_unchecked/index-value-map", okz, bulk.where(),
+           "the IndexMap is collected from indexes.iter().zip(values) in index order (indexes sorted+deduped by R12)" if okz else
+           "the result map is not built by zipping the sorted index list with the values", what="bulk result not keyed in increasing index order")
+    return dict(
+        level="other",
+        explanation="SINGLE selection (get_from_sorted_mut) is proved for every input and every pivot sequence: (R24) each of its return "
+                    "paths is executed abstractly with the contract of partition_mut (proved by R22/R18) and the induction hypothesis for "
+                    "the recursive call on the strictly shorter sub-view that contains position i (index shifted by exactly the slice "
+                    "start), relations between the value symbols (pivot value, returned value) closed under transitivity; the "
+                    "postcondition a[i] = r, ∀x<i a[x] ≤ r, ∀x>i a[x] ≥ r follows on all paths; the pivot index is an unconstrained value, "
+                    "so the proof covers all pivot sequences; (R4) only swaps move data, so r is exactly the element a full sort places at "
+                    "position i. BULK selection: only the structural clause is decided – one entry per distinct requested index, in "
+                    "increasing index order (R12 sorted+deduped, R9 index/value zip). That each bulk entry equals the single selection "
+                    "(the divide-and-conquer with index rebasing) is NOT decided. Assumes Ord is a lawful total order.",
+    )
+
+
+PROPS = {"C01": c01, "C02": c02, "C08": c08, "C06": c06, "C15": c15, "C18": c18, "C12": c12, "C07": c07, "C09": c09, "C09": c09, "C10": c10, "C11": c11, "C13": c13, "C14": c14, "C05": c05, "C20": c20, "C16": c16, "C17": c17, "C04": c04, "C03": c03}
 
 
 # rules with a planted must-fire positive in /verif/fixtures, per property (run on every check)
 FIXTURE_RULES = {
+    "C02": ["R22", "R18", "R4"],
     "C08": ["R8", "R1"],
     "C01": ["R19", "R8", "R9", "R6"],
     "C03": ["R4", "R1"], "C04": ["R3", "R14", "R1", "R21"], "C05": ["R6", "R1"], "C06": ["R9", "R1", "R8", "R19"], "C07": ["R9", "R8", "R6", "R19"],
